@@ -2,7 +2,7 @@
 import copy
 import numpy as np
 
-from sim.core import Violation, Inconclusive, SimRandom, Scheduler, close
+from sim.core import Violation, Inconclusive, InjectedAbort, SimRandom, Scheduler, close
 from sim.models import (nested_variant_spec, gen_mdp_spec, MDPView, make_mdp, gen_pomdp_spec, POMDPView, make_pomdp, dyadic)
 from sim.refsolve import game_W
 from sim.ctx import RunCtx, make_scheduler, gen_sched
@@ -69,6 +69,8 @@ def gen_case(rng, tier, idx):
                    ecap=rng.choice((0, 1, 2, 5, 30)))
         if rng.random() < 0.12 and not plain:
             cfg['nest'] = rng.randrange(1000)
+        elif rng.random() < 0.1 and not plain:
+            cfg['abort'] = rng.randrange(1000)
     else:
         spec = gen_pomdp_spec(rng)
         kind = rng.choice(('alpha', 'qmdp', 'fsc'))
@@ -109,7 +111,7 @@ def execute(case, script=None):
     ctx = RunCtx(PROP, view if cfg['world'] == 'mdp' else None)
     if cfg['world'] == 'mdp' and case['spec'].get('proper'):
         ctx.W = game_W(view)
-    ctx.declare_probes('nested_run', 'cap_before_absorption', 'cap_at_absorption', 'cap_after_absorption', 'cap_zero', 'start_absorbing',
+    ctx.declare_probes('nested_run', 'rerun_after_abort', 'aborts_delivered', 'cap_before_absorption', 'cap_at_absorption', 'cap_after_absorption', 'cap_zero', 'start_absorbing',
                        'start_sampled', 'stopped_by_cap', 'stopped_by_absorption', 'pomdp_rollouts', 'mdp_rollouts',
                        'deterministic_exact_eval', 'long_rollout_400_steps', 'policy_updated_in_place')
     sched = make_scheduler(case, script, ctx)
@@ -212,6 +214,21 @@ def _exec_mdp(view, cfg, ctx, sched):
     cap = cfg['cap']
     if cap == 0:
         ctx.probe('cap_zero')
+    if cfg.get('abort') is not None:
+        # fault F6: a roll-out and an evaluation on the SAME policy and model objects die half-way with an exception thrown
+        # from a model call-back; everything below then uses the same objects
+        ctx.probe('rerun_after_abort')
+        for what in ('run_on', 'evaluate_on'):
+            hook = ctx.abort_after(1 + (cfg['abort'] // (1 if what == 'run_on' else 7)) % 9)
+            try:
+                if what == 'run_on':
+                    pol.run_on(mdp, initial_state=None if start is None else sk[start], max_steps=20, rng=SimRandom(sched))
+                else:
+                    Policy.evaluate_on(pol, mdp, n_simulations=3, max_steps=6, rng=SimRandom(sched))
+            except InjectedAbort:
+                ctx.probe('aborts_delivered')
+            ctx.disarm(hook)
+        runs.clear()
     nested = None
     if cfg.get('nest') is not None:
         # fault F10: at the k-th model call-back of a roll-out / of the evaluation, user code rolls out and evaluates ANOTHER
